@@ -15,6 +15,7 @@ func init() {
 			c.guard("SEQ.SUSPEND", s.ruleSuspend)
 			c.guard("SEQ.START", func() { s.ruleStart() })
 			c.guard("SEQ.FOR", s.ruleFor)
+			c.guard("SEQ.OVERLAP", s.ruleOverlap)
 			c.guard("SEQ.LAZY", s.ruleLazyIters)
 		},
 	})
@@ -87,6 +88,7 @@ func init() {
 			c.guard("SEQ.STATE", s.ruleState)
 			c.guard("SEQ.START", func() { s.ruleStart() })
 			c.guard("SEQ.FOR", s.ruleFor)
+			c.guard("SEQ.OVERLAP", s.ruleOverlap)
 			c.guard("RW.NODECL", func() { ruleRwNoDecl(c) })
 			// of the loop tables only the independence of two runs of one Seq value belongs here
 			c.keep(func(o Obligation) bool {
